@@ -243,7 +243,102 @@ func floatSpecial(src *obs.Frame, keys []string) string {
 	return s
 }
 
+// runHuge: tens of thousands of distinct keys (the table beyond 2^16 slots,
+// many growth steps, implementations that switch strategy for large frames).
+// Only the good and the real hash are used (a collision storm would be
+// quadratic here) and the oracle works on the raw columns.
+func runHuge(t *rapid.T, prop string) {
+	n := rapid.IntRange(40000, 150000).Draw(t, "hugerows")
+	r := core.NewSplitMix(rapid.Uint64().Draw(t, "hugekey"))
+	card := n / (1 + r.Intn(3))
+	fl := flavour{Name: "good", Key: r.Uint64()}
+	if r.Intn(3) == 0 {
+		fl.Name = "real"
+	}
+	null := r.Intn(2) == 0
+	core.Eval()
+	core.Probe("huge-frame")
+	keys := make([]int, n)
+	ids := make([]int, n)
+	classes := map[int][]int{}
+	for i := range keys {
+		keys[i] = r.Intn(card) - card/2
+		ids[i] = i
+		classes[keys[i]] = append(classes[keys[i]], i)
+	}
+	tr := map[string]interface{}{"rows": n, "key_cardinality_bound": card, "distinct_keys": len(classes), "hash": fl, "group_null": null, "op": prop}
+	qf := qframe.New(map[string]interface{}{"k": keys, "__id": ids})
+	if qf.Err != nil {
+		t.Fatalf("harness: %v", qf.Err)
+	}
+	rand.Seed(int64(r.Uint64() >> 1))
+	verifhook.SetHash(fl.fn())
+	defer verifhook.SetHash(nil)
+	core.Nontrivial(core.Hash64("huge", n, card, fl.Name, fl.Key, prop))
+	core.Event("huge", n, len(classes), prop)
+	if prop == "C05" {
+		res := qf.Distinct(groupby.Columns("k"), groupby.Null(null))
+		if res.Err != nil {
+			core.Violation(t, "C05:huge:error", res.Err.Error(), tr)
+			return
+		}
+		kv, idv := res.MustIntView("k"), res.MustIntView("__id")
+		if res.Len() != len(classes) {
+			core.Violation(t, "C05:D1:row-count:huge", fmt.Sprintf("Distinct over %d rows returned %d rows, there are %d distinct keys", n, res.Len(), len(classes)), tr)
+			return
+		}
+		seen := map[int]bool{}
+		for i := 0; i < res.Len(); i++ {
+			id, k := idv.ItemAt(i), kv.ItemAt(i)
+			if id < 0 || id >= n || keys[id] != k {
+				core.Violation(t, "C05:D1:row-content:huge", fmt.Sprintf("returned row (k=%d, __id=%d) is not an input row", k, id), tr)
+				return
+			}
+			if seen[k] {
+				core.Violation(t, "C05:D1:duplicate-class:huge", fmt.Sprintf("key %d returned twice", k), tr)
+				return
+			}
+			seen[k] = true
+		}
+		return
+	}
+	g := qf.GroupBy(groupby.Columns("k"), groupby.Null(null))
+	res := g.Aggregate(qframe.Aggregation{Fn: "count", Column: "__id", As: "n"}, qframe.Aggregation{Fn: "sum", Column: "__id", As: "s"}, qframe.Aggregation{Fn: "min", Column: "__id", As: "first"})
+	if res.Err != nil {
+		core.Violation(t, "C04:huge:error", res.Err.Error(), tr)
+		return
+	}
+	core.ProbeN("relocations", g.Stats.RelocationCount)
+	if res.Len() != len(classes) {
+		core.Violation(t, "C04:G2:row-count:huge", fmt.Sprintf("Aggregate over %d rows returned %d rows, there are %d distinct keys", n, res.Len(), len(classes)), tr)
+		return
+	}
+	kv, nv, sv, fv := res.MustIntView("k"), res.MustIntView("n"), res.MustIntView("s"), res.MustIntView("first")
+	seen := map[int]bool{}
+	for i := 0; i < res.Len(); i++ {
+		k := kv.ItemAt(i)
+		cl, ok := classes[k]
+		if !ok || seen[k] {
+			core.Violation(t, "C04:G2:group-identity:huge", fmt.Sprintf("result row for key %d is not a (new) class", k), tr)
+			return
+		}
+		seen[k] = true
+		sum := 0
+		for _, id := range cl {
+			sum += id
+		}
+		if nv.ItemAt(i) != len(cl) || sv.ItemAt(i) != sum || fv.ItemAt(i) != cl[0] {
+			core.Violation(t, "C04:G2:value:huge", fmt.Sprintf("key %d: count/sum/min of __id = %d/%d/%d, the class has %d/%d/%d", k, nv.ItemAt(i), sv.ItemAt(i), fv.ItemAt(i), len(cl), sum, cl[0]), tr)
+			return
+		}
+	}
+}
+
 func run(t *rapid.T, prop string) {
+	if gen.Rare(t, "huge", 5000) {
+		runHuge(t, prop)
+		return
+	}
 	b := gen.FrameBounds{MaxCols: 4, MaxRows: 40, WithID: true}
 	if core.Thorough() {
 		b.MaxRows = 300
@@ -756,6 +851,40 @@ func checkDistinct(t *rapid.T, tr *trace, qf qframe.QFrame, src *obs.Frame, mode
 	if pan != nil {
 		core.Violation(t, "C05:panic:distinct", fmt.Sprint("Distinct panicked: ", pan), tr)
 		return
+	}
+	// a second Distinct directly on the result, same columns, possibly the
+	// other Null setting: the classes of the intermediate frame are those of
+	// the coarser of the two settings
+	chained := rapid.IntRange(0, 3).Draw(t, "chain") == 0
+	if chained && pan == nil {
+		null2 := rapid.Bool().Draw(t, "chainnull")
+		tr.Op = fmt.Sprintf("Distinct(null=%v).Distinct(null=%v)", tr.Null, null2)
+		func() {
+			defer func() { pan = recover() }()
+			if allCols {
+				res = res.Distinct(groupby.Null(null2))
+			} else {
+				res = res.Distinct(groupby.Columns(tr.Keys...), groupby.Null(null2))
+			}
+		}()
+		if pan != nil {
+			core.Violation(t, "C05:panic:distinct", fmt.Sprint("chained Distinct panicked: ", pan), tr)
+			return
+		}
+		if null2 && !tr.Null {
+			keys := tr.Keys
+			if allCols {
+				keys = nil
+				for _, n := range src.Names {
+					if n != "__id" {
+						keys = append(keys, n)
+					}
+				}
+			}
+			model = partition(src, keys, true)
+			tr.Model = classesOf(model)
+		}
+		core.Probe("chained-distinct")
 	}
 	ro := obs.Of(res)
 	tr.Got = ro
